@@ -51,6 +51,38 @@ pub fn forge<T: Kinded, P: Xof<32>>(
 where
     T::Field: ZField,
 {
+    forge_ex::<T, P>(typ, cfg, ctx, nonce, input, random, None)
+}
+
+/// Joint randomness of all proofs from the joint-randomness parts, as specified.
+pub fn joint_rands_from_parts<T: Kinded, P: Xof<32>>(typ: &T, cfg: &VdafCfg, ctx: &[u8], parts: &[[u8; 32]]) -> Vec<T::Field>
+where
+    T::Field: ZField,
+{
+    let alg = cfg.alg_id;
+    let mut x = P::init(&[0u8; 32], &[&dst(alg, DST_JOINT_RAND_SEED), ctx]);
+    for p in parts {
+        x.update(p);
+    }
+    let jr_seed = x.into_seed();
+    P::seed_stream(jr_seed.as_ref(), &[&dst(alg, DST_JOINT_RANDOMNESS), ctx], &[&[cfg.proofs]]).into_field_vec(typ.joint_rand_len() * cfg.proofs as usize)
+}
+
+/// As `forge`; with `parts_override` the given joint-randomness parts are published and used for the
+/// proof instead of the ones the specification derives from the shares (a malicious client that
+/// obtained the parts some other way, e.g. by running the aggregators' code on its shares).
+pub fn forge_ex<T: Kinded, P: Xof<32>>(
+    typ: &T,
+    cfg: &VdafCfg,
+    ctx: &[u8],
+    nonce: &[u8; 16],
+    input: &[T::Field],
+    random: &[u8],
+    parts_override: Option<&[[u8; 32]]>,
+) -> Result<Forged, String>
+where
+    T::Field: ZField,
+{
     let n = cfg.aggs as usize;
     let np = cfg.proofs as usize;
     let jr = typ.joint_rand_len() > 0;
@@ -96,17 +128,13 @@ where
         parts[0] = *x.into_seed().as_ref();
         leader_blind = Some(blind);
     }
-    let joint_rands: Vec<T::Field> = if jr {
-        let mut x = P::init(&[0u8; 32], &[&dst(alg, DST_JOINT_RAND_SEED), ctx]);
-        for p in &parts {
-            x.update(p);
+    if let (true, Some(o)) = (jr, parts_override) {
+        if o.len() != n {
+            return Err("bad parts override".into());
         }
-        let jr_seed = x.into_seed();
-        P::seed_stream(jr_seed.as_ref(), &[&dst(alg, DST_JOINT_RANDOMNESS), ctx], &[&[cfg.proofs]])
-            .into_field_vec(typ.joint_rand_len() * np)
-    } else {
-        vec![]
-    };
+        parts = o.to_vec();
+    }
+    let joint_rands: Vec<T::Field> = if jr { joint_rands_from_parts::<T, P>(typ, cfg, ctx, &parts) } else { vec![] };
     let prove_seed = seeds.next().unwrap();
     let prove_rands: Vec<T::Field> =
         P::seed_stream(&prove_seed, &[&dst(alg, DST_PROVE_RANDOMNESS), ctx], &[&[cfg.proofs]]).into_field_vec(typ.prove_rand_len() * np);
